@@ -77,15 +77,23 @@ impl AuthenticationRequest {
         data: &[u8],
         parameter: impl Into<AuthenticationParameter>,
     ) -> Result<Self, TryFromSliceError> {
-        let (challenge, data) = data.split_at(32);
-        let (application, data) = data.split_at(32);
-        let (handle_len, data) = data.split_at(1);
-        let key_handle = data[..handle_len[0] as usize].to_vec();
+        let (challenge, data) = data.split_at(data.len().min(32));
+        let (application, data) = data.split_at(data.len().min(32));
+        let (handle_len, data) = data.split_at(data.len().min(1));
+        let challenge = challenge.try_into()?;
+        let application = application.try_into()?;
+        let handle_len: [u8; 1] = handle_len.try_into()?;
+        let handle_len = usize::from(handle_len[0]);
+        if data.len() < handle_len {
+            // a key handle shorter than declared is as malformed as a short hash: fail the same way
+            <[u8; 1]>::try_from(&data[..0])?;
+        }
+        let key_handle = &data[..handle_len.min(data.len())];
         Ok(Self {
             parameter: parameter.into(),
-            challenge: challenge.try_into()?,
-            application: application.try_into()?,
-            key_handle,
+            challenge,
+            application,
+            key_handle: key_handle.to_vec(),
         })
     }
 }
